@@ -16,14 +16,15 @@ ROOT = cf.ROOT
 
 # which suites decide which property, per tier
 PLAN = {
-    "C01": {"quick": ["struct3", "struct4s", "struct3z", "struct3p", "seg13z"],
-            "thorough": ["struct3", "struct4s", "struct3c", "struct3z", "struct3p", "struct4", "seg13", "seg13z", "seg22", "seg3d", "feat13"]},
+    "C01": {"quick": ["struct3", "struct4s", "struct3z", "struct3p", "seg13z", "prims3", "primseg"],
+            "thorough": ["struct3", "struct4s", "struct3c", "struct3z", "struct3p", "struct4", "seg13", "seg13z", "seg22", "seg3d", "feat13",
+                         "prims3", "primseg"]},
     "C03": {"quick": ["struct3", "struct4s"], "thorough": ["struct3", "struct4s", "struct4", "seg13"]},
     "C04": {"quick": ["struct3", "struct4s"], "thorough": ["struct3", "struct4s", "struct4", "seg13"]},
     "C05": {"quick": ["struct3", "struct4s"], "thorough": ["struct3", "struct4s", "struct4", "seg13"]},
     "C06": {"quick": ["struct3", "struct4s"], "thorough": ["struct3", "struct4s", "struct4", "seg13"]},
     "C07": {"quick": ["seg13", "seg3d"], "thorough": ["seg13", "seg22", "seg3d", "seg13n"]},
-    "C08": {"quick": ["seg13", "seg3d", "feat13"], "thorough": ["seg13", "seg22", "seg3d", "seg13n", "feat13", "feat22"]},
+    "C08": {"quick": ["seg13", "seg3d", "feat13", "feat3d"], "thorough": ["seg13", "seg22", "seg3d", "seg13n", "feat13", "feat22", "feat3d"]},
     # seg13z: tracks rebuilt from the graph, IoU enabled in bulk at that point; feat13: enable / disable at any point
     "C09": {"quick": ["seg13", "seg3d", "seg13z", "feat13"], "thorough": ["seg13", "seg22", "seg3d", "seg13n", "seg13z", "feat13", "feat22"]},
     "C10": {"quick": ["featns", "feat13"], "thorough": ["featns", "feat13", "feat22"]},
